@@ -8,6 +8,7 @@ import (
 	"math/big"
 	"sort"
 	"strings"
+	"time"
 
 	"golang.org/x/tools/go/ssa"
 )
@@ -44,6 +45,7 @@ type Options struct {
 	Overflow   bool            // math-int mode: obligations that int arithmetic stays within 64 bits
 	Bounded    string
 	Reveal     bool // opaque spec functions are expanded (used when proving the contracts that define them)
+	RevealOnly map[string]bool // if non-nil: only these opaque spec functions (by short name) are expanded
 	AppendDouble bool // bounded lemmas: deterministic capacity growth on reallocating appends
 	Paths      bool // path mode: fork at every symbolic branch, never merge (bounded lemmas)
 	ModelElems bool // name the leading elements of slice parameters (counterexample replay)
@@ -79,6 +81,7 @@ type Exec struct {
 	ghostKeys  map[string]*ssa.Parameter // ghost variables live in State.Env under synthetic keys (merged like any value)
 	pathInline bool
 	pathSteps  int
+	deadline   time.Time
 }
 
 // Notes accumulate everything assumed or abstracted during a run.
@@ -125,6 +128,7 @@ func (x *Exec) oblName(kind string) string {
 }
 
 func (x *Exec) addObl(st *State, kind, sub string, goal *Term, pos token.Pos, text string) {
+	x.checkLimits()
 	if x.specMode > 0 {
 		return
 	}
@@ -365,7 +369,9 @@ func (x *Exec) ExecFunc(fr *frame, st *State) (Value, *State) {
 		mode := x.Opt.Unroll
 		if fr.contract != nil {
 			if lc := fr.contract.Loops[l.ordinal]; lc != nil {
-				if len(lc.Invariants) > 0 && !x.Opt.InlineAll {
+				// A callee inlined on request (unit option "inline") is executed, not cut: its
+				// invariants may name ghost parameters that only exist at contract call sites.
+				if len(lc.Invariants) > 0 && !x.Opt.InlineAll && !(x.Opt.NoContract[QualName(fn)] && x.Opt.Unroll > 0) {
 					mode = -1
 				} else if lc.Unroll > 0 {
 					mode = lc.Unroll
